@@ -52,7 +52,7 @@ def run_tlc(module, cfg, *, scratch, workers=16, timeout=600, env=None, extra=()
     spec_dir = spec_dir or SPEC_DIR
     meta = os.path.join(scratch, "meta_%d" % (time.time_ns() % 10**12))
     os.makedirs(meta, exist_ok=True)
-    cmd = ["java", "-XX:+UseParallelGC", "-Xmx8g", f"-Djava.io.tmpdir={meta}", *java_opts, "-cp", CP, "tlc2.TLC",
+    cmd = ["java", "-XX:+UseParallelGC", "-Xmx8g", "-Xss256m", f"-Djava.io.tmpdir={meta}", *java_opts, "-cp", CP, "tlc2.TLC",
            "-workers", str(workers), "-metadir", meta, "-noGenerateSpecTE", "-config", cfg]
     if deadlock_off:
         cmd.append("-deadlock")
